@@ -59,5 +59,29 @@ for sd in sorted(glob.glob(os.path.join(V, "seeded", "C??", "?"))):
 n = len(rows) - 2
 first_caught = sum(1 for v in hist.values() if v.get("first") == "caught")
 put("SEEDTABLE", "\n".join(rows) + "\n\n%d seeded changes kept; %d were reported by the check of their own property as it stood when the seed arrived, the others led to the rule changes in the last column and are reported now." % (n, first_caught))
+# per-property "as built" line under each §5 heading
+kf = collections.Counter(); fx = collections.Counter()
+for l in open(os.path.join(V, "KNOWN_FINDINGS.txt")):
+    if l.startswith("finding:"):
+        kf[l.split("property=")[1][:3]] += 1
+    if l.startswith("fixed:"):
+        fx[l.split("property=")[1][:3]] += 1
+for i in range(1, 21):
+    pid = "C%02d" % i
+    evp = os.path.join(V, "evidence", pid + ".json")
+    if not os.path.exists(evp):
+        continue
+    ev = json.load(open(evp))
+    rl = ev["coverage"]["rules"]
+    line = ("> **as built** — rules: %s.  %d instances checked on the current tree, %d known finding(s) still reported, %d defect(s) of the pinned tree repaired "
+            "(`fixed:` lines in KNOWN_FINDINGS.txt).  The \"today\" paragraph below describes the pinned tree before those repairs; rules added after this design are listed in §8.6."
+            % (", ".join("%s (%d)" % (r["rule"].replace(pid + "-", ""), r["instances"]) for r in rl), ev["coverage"]["obligations"], kf[pid], fx[pid]))
+    b, e = "<!-- ASBUILT:%s:BEGIN -->" % pid, "<!-- ASBUILT:%s:END -->" % pid
+    if b in d:
+        d = d[:d.index(b) + len(b)] + "\n" + line + "\n" + d[d.index(e):]
+    else:
+        m = re.search(r"^### %s — [^\n]*\n" % pid, d, re.M)
+        if m:
+            d = d[:m.end()] + "\n" + b + "\n" + line + "\n" + e + "\n" + d[m.end():]
 open(os.path.join(V, "DESIGN.md"), "w").write(d)
 print("filled: %d mutants, %d seeds" % (len(mutants.MUTANTS), n))
